@@ -999,6 +999,10 @@ func (vfs *OrefaFS) ToSysStat(info fs.FileInfo) avfs.SysStater {
 func (vfs *OrefaFS) Truncate(name string, size int64) error {
 	op := "truncate"
 
+	if size < 0 && vfs.OSType() != avfs.OsWindows {
+		return &fs.PathError{Op: op, Path: name, Err: vfs.err.InvalidArgument}
+	}
+
 	absPath, _ := vfs.Abs(name)
 
 	vfs.mu.RLock()
